@@ -153,9 +153,9 @@ const BasicPki &basic_pki() {
         p = new BasicPki();
         CertSpec r; r.cn = "root"; r.is_ca = true; r.serial = 1;
         p->root = make_cert(r, nullptr);
-        CertSpec a; a.cn = "leaf-a"; a.serial = 2; a.san_dns = {"a.example"};
+        CertSpec a; a.cn = "leaf-a"; a.serial = 2; a.san_dns = {"a.example", "alt-a.example", "a-with-a-rather-long-name-for-a-subject-alternative-name.sub.domain.example"}; a.san_email = {"a@example.com"}; a.san_dir = {"dir-a"};
         p->leaf_a = make_cert(a, p->root.get());
-        CertSpec b; b.cn = "leaf-b"; b.serial = 3; b.san_dns = {"b.example"};
+        CertSpec b; b.cn = "leaf-b"; b.serial = 3; b.san_dns = {"b.example"}; b.san_email = {"b@example.com", "ops@b.example"}; b.san_dir = {"dir-b", "second-dir-b"};
         p->leaf_b = make_cert(b, p->root.get());
         CertSpec o; o.cn = "other-root"; o.is_ca = true; o.serial = 1;
         p->other_root = make_cert(o, nullptr);
